@@ -136,6 +136,15 @@ func hostileBytes(c *fw.Ctx, scale int, emit emitFn) {
 			emit("type-chain", singleJob(id("tchain"), []byte(sb.String()), false))
 		}
 	}
+	// ladders: @t<i> names @t<i+1> and @t<i+2> in one of ten forms, the place decorated in one of eight ways - rules that make the
+	// reference optional, and texts that only look like such rules (in a note, in a key, in a string, with the value false)
+	for _, n := range []int{22, 29, 34, 60} {
+		for form := 0; form < ladderForms; form++ {
+			for deco := 0; deco < ladderDecos; deco++ {
+				emit("type-ladder", singleJob(id(fmt.Sprintf("ladder-n%d-f%d-d%d", n, form, deco)), typeLadder(n, form, deco), false))
+			}
+		}
+	}
 	// deeply nested schemas: arrays, objects and both, as a TYPE and as a response body, around the limit of 1000 levels and far beyond
 	for _, d := range deepNestingDocs() {
 		emit("deep-nesting", singleJob(id("deep"), d, false))
